@@ -6,6 +6,8 @@ mod sampled;
 pub use sampled::SampledLFU;
 mod tinylfu;
 pub use tinylfu::TinyLFU;
+#[cfg(feature = "verif-hooks")]
+pub use tinylfu::{TinyLFUBuilder, TinyLFUError};
 
 mod wtinylfu;
 pub use wtinylfu::{WTinyLFUCache, WTinyLFUCacheBuilder};
